@@ -332,7 +332,9 @@ class LaplaceDomainExpression(LaplaceDomain, Expr):
                 y += float(c.expr) * xvector
 
                 xvector = diff(xvector) / dtval
-                xvector = hstack((xvector, 0))
+                # Repeat the last difference (backward difference at the
+                # final sample) rather than assuming a zero derivative.
+                xvector = hstack((xvector, xvector[-1]))
 
         from scipy.interpolate import interp1d
 
